@@ -47,3 +47,101 @@ Fixpoint unescape (p : list N) : list N :=
 Definition mode_es : mode :=
   {| m_shortest := false; m_filenames := false; m_entire := true; m_nocase := false;
      m_noglobstar := false; m_leadingdot := false; m_ext := false |}.
+
+(* ------------------------------------------------------------------------------------------
+   The second fragment: patterns given as a list of pieces, now with bracket expressions
+   (sets of plain runes, escaped runes and ranges; negation by ! or ^; "]" first).  The raw
+   pattern is [pat_text ps]. *)
+Inductive belem := EChar (c : N) | EEsc (c : N) | ERng (a b : N).
+
+(* a rune that stands for itself inside a bracket expression wherever it occurs *)
+Definition plainc (c : N) : bool :=
+  negb ((c =? 0) || (c =? cBSL) || (c =? cDASH) || (c =? cRBRK) || (c =? cLBRK)).
+
+Definition elem_ok (e : belem) : bool :=
+  match e with
+  | EChar c => plainc c
+  | EEsc c => negb (c =? 0)
+  | ERng a b => plainc a && plainc b && (a <=? b)
+  end.
+
+Definition esc_q (c : N) : quoting := if c =? cDASH then QDash else if 128 <? c then QRaw else QMeta.
+
+Definition elem_text (e : belem) : list N :=
+  match e with EChar c => [c] | EEsc c => [cBSL; c] | ERng a b => [a; cDASH; b] end.
+Definition elem_toks (e : belem) : list btok :=
+  match e with
+  | EChar c => [BChar c QRaw]
+  | EEsc c => [BChar c (esc_q c)]
+  | ERng a b => [BChar a QRaw; BDash; BChar b QRaw]
+  end.
+Definition elem_item (e : belem) : citem :=
+  match e with EChar c => CChar c QRaw | EEsc c => CChar c (esc_q c) | ERng a b => CRange a QRaw b QRaw end.
+Definition elem_mem (x : N) (e : belem) : bool :=
+  match e with EChar c => x =? c | EEsc c => x =? c | ERng a b => in_rng a b x end.
+
+Definition es_text (es : list belem) : list N := flat_map elem_text es.
+Definition es_toks (es : list belem) : list btok := flat_map elem_toks es.
+
+Inductive piece :=
+| PLit (c : N) | PEsc (c : N) | PStar | PAny
+| PSet (neg : option N) (rb : bool) (es : list belem).
+
+Definition first_rune (es : list belem) : N :=
+  match es with [] => cRBRK | e :: _ => match elem_text e with c :: _ => c | [] => 0 end end.
+
+Definition piece_ok (pc : piece) : bool :=
+  match pc with
+  | PLit c => negb ((c =? 0) || (c =? cSTAR) || (c =? cQUEST) || (c =? cLBRK) || (c =? cBSL))
+  | PEsc c => negb (c =? 0)
+  | PStar | PAny => true
+  | PSet neg rb es =>
+      forallb elem_ok es
+      && (rb || match es with [] => false | _ => true end)
+      && match neg with
+         | Some m => (m =? cBANG) || (m =? cCARET)
+         | None => rb || negb ((first_rune es =? cBANG) || (first_rune es =? cCARET))
+         end
+  end.
+
+Definition set_body_text (rb : bool) (es : list belem) : list N := (if rb then [cRBRK] else []) ++ es_text es.
+
+Definition piece_text (pc : piece) : list N :=
+  match pc with
+  | PLit c => [c]
+  | PEsc c => [cBSL; c]
+  | PStar => [cSTAR]
+  | PAny => [cQUEST]
+  | PSet neg rb es => [cLBRK] ++ (match neg with Some m => [m] | None => [] end) ++ set_body_text rb es ++ [cRBRK]
+  end.
+Definition pat_text (ps : list piece) : list N := flat_map piece_text ps.
+
+Definition is_some {A} (o : option A) : bool := match o with Some _ => true | None => false end.
+
+Definition set_items (rb : bool) (es : list belem) : list citem :=
+  (if rb then [CChar cRBRK QRaw] else []) ++ map elem_item es.
+
+Definition piece_re (pc : piece) : re :=
+  match pc with
+  | PLit c => RChar c
+  | PEsc c => RChar c
+  | PStar => RStar RAny
+  | PAny => RAny
+  | PSet neg rb es => RSet (is_some neg) (set_items rb es)
+  end.
+Definition pat_re (acc : re) (ps : list piece) : re := fold_left (fun a pc => RCat a (piece_re pc)) ps acc.
+
+(* what a bracket expression accepts, stated directly *)
+Definition set_accepts (neg : option N) (rb : bool) (es : list belem) (x : N) : bool :=
+  xorb (is_some neg) ((rb && (x =? cRBRK)) || existsb (elem_mem x) es).
+
+(* the language of a piece list, stated directly *)
+Fixpoint glang (ps : list piece) (s : list N) : Prop :=
+  match ps with
+  | [] => s = []
+  | PLit c :: ps' => exists s', s = c :: s' /\ glang ps' s'
+  | PEsc c :: ps' => exists s', s = c :: s' /\ glang ps' s'
+  | PStar :: ps' => exists s1 s2, s = s1 ++ s2 /\ glang ps' s2
+  | PAny :: ps' => exists x s', s = x :: s' /\ glang ps' s'
+  | PSet neg rb es :: ps' => exists x s', s = x :: s' /\ set_accepts neg rb es x = true /\ glang ps' s'
+  end.
